@@ -445,7 +445,7 @@ Proof.
   apply orb_false_iff in Em. destruct Em as [Er Ee]. apply Nat.eqb_neq in Er, Ee.
   apply velocities_iff_convention in V. unfold conv_velocities, conv_notes in V. rewrite !andb_true_iff in V.
   destruct V as [[[[[[[[[Vri Vei] Lr] Le] _] _] Lrv] Lev] _] _]. cbn [shape0 shape arr2 nth] in Lr, Le. rewrite !map_length in *.
-  apply Nat.eqb_eq in Lr, Le, Lrv, Lev.
+  apply Nat.eqb_eq in Lr, Le, Lrv, Lev. unfold TR.pitch, TR.ivl in *.
   assert (Vr : TR.validate_ivs ri = Ok tt) by (rewrite tr_validate_ivs_arr; apply intervals_iff_convention; exact Vri).
   unfold TR.vel_match_notes, TR.match_notes, TR.obind. rewrite (zip_notes_fst ri rp Lr).
   replace (match ratio with Some _ => TR.validate_ivs ri | None => Ok tt end) with (@Ok unit tt) by (destruct ratio; congruence).
